@@ -6693,6 +6693,12 @@ class Parser:
                 self._retreat(index)
                 return None
 
+            if type_token.name not in exp.DType.__members__:
+                # Type tokens without a DataType counterpart are handled above, e.g. NULLABLE(<type>)
+                self.raise_error(f"Invalid arguments for type {type_token.name}")
+                self._retreat(index)
+                return None
+
             this = exp.DataType(
                 this=exp.DType[type_token.name],
                 expressions=expressions,
